@@ -125,6 +125,16 @@ def run(ctx):
         r_ref = fro(_sub(ref_matmul(A, xq), b))
         got = info.get("residual")
         ok = any(P(got).same(r_ref / (fro(b) + c)) for c in [0] + _tiny())
+        if ok and P(got).same(r_ref / fro(b)):
+            # the quotient is taken with ||b|| itself: legal only behind a zero test of ||b|| (b = 0 has the exact solution x = 0 and
+            # must not be reported as residual 0/0 = nan, converged = False)
+            nb = fro(b)
+            tested = any(cond_parts(c_) and any(P(x_).same(nb) for x_ in cond_parts(c_)[1:] if isinstance(x_, (Poly, int, float)))
+                         for c_, _n, _d in it.decision_log)
+            ctx.ob("C04.D3.zero-divisor", f"{tag}: true residual divided by ||b||", tested,
+                   "info['residual'] is ||A x - b|| / ||b|| without a regulariser and without a zero test of ||b||: a zero right-hand side "
+                   "gives 0/0 = nan and converged = False for the exact solution x = 0", where=f_solve.where,
+                   construct="solve: unguarded division by ||b||", loc=f_solve.loc())
         ctx.ob("C04.D1.residual", tag, ok, "info['residual'] is not ||A_orig x - b_orig|| / ||b_orig|| of the returned x (e.g. the "
                "internal / preconditioned residual is reported)", where=f_solve.where,
                construct="reported residual is not the true residual of the returned x", loc=f_solve.loc(), detail=short(got))
